@@ -189,6 +189,26 @@ def run(ctx):
             elif expect is False:
                 d["_expect_fail"] = True
             dops.append(("jwe.dec", d))
+    # the combined streaming entry point on mutated tokens: tag / iv / aad / protected changed, ciphertext truncated
+    for tok, a, side in [b for b in base if b[2] == "jose"][:: (5 if quick else 1)]:
+        ctb = b64d(tok["ciphertext"])
+        det = {k: v for k, v in tok.items() if k != "ciphertext"}
+        feeds = [ctb[:len(ctb) // 2].hex(), ctb[len(ctb) // 2:].hex()]
+        muts = [("unmutated", det, feeds, True), ("tag char 0", dict(det, tag=flip_char(det["tag"], 0)), feeds, False), ("iv char 0", dict(det, iv=flip_char(det["iv"], 0)), feeds, False),
+                ("protected char 3", dict(det, protected=flip_char(det["protected"], 3)), feeds, False)]
+        if ctb:
+            muts.append(("ciphertext short by one byte", det, [ctb[:-1].hex()], False))
+        if "aad" in det:
+            muts.append(("aad removed", {k: v for k, v in det.items() if k != "aad"}, feeds, False))
+        else:
+            muts.append(("aad added", dict(det, aad="QQ"), feeds, False))
+        for why, t2, fd, ok in muts:
+            d = {"jwe": t2, "jwk": a["jwk"], "feeds": fd, "rand": rng.randbytes(600).hex(), "_why": "%s %s/%s streamed (dec_io): %s" % (side, a["_wrap"], a["_enc"], why)}
+            if ok:
+                d["_pt"] = a["pt"]
+            elif a["_wrap"] != "RSA1_5" or "tag" in why or "iv" in why or "aad" in why or "short" in why:
+                d["_expect_fail"] = True
+            dops.append(("jwe.dec_io", d))
     # a named recipient binds the decryption to *that* recipient object, for single keys and for key sets alike:
     # two-recipient objects, recipient i named together with the other recipient's key / a key set / a tampered copy
     fresh = lambda n: {"kty": "oct", "k": b64u(rng.randbytes(n))}
@@ -216,6 +236,9 @@ def run(ctx):
                     d["_expect_fail"] = True
                 dops.append(("jwe.dec", d))
                 dops.append(("jwe.dec_jwk", dict(d)))
+                # and through the combined streaming entry point (ciphertext bytes fed, verdict at `done`)
+                ctb = b64d(tok["ciphertext"])
+                dops.append(("jwe.dec_io", dict(d, jwe={k: v for k, v in tok.items() if k != "ciphertext"}, feeds=[ctb[:3].hex(), ctb[3:].hex()])))
         # the same object handed over WITHOUT naming a recipient: the library walks the list itself; a tampered entry of
         # the key's own recipient fails, a tampered entry of the OTHER recipient does not disturb this key
         bad1 = dict(r1, encrypted_key=flip_char(r1["encrypted_key"], 3))
@@ -289,7 +312,7 @@ def run(ctx):
             return None
         if op == "jwe.dec_jwk" and args.get("_expect_fail") and "v" in real:
             return ("dec:unauthenticated", "a content key is handed out after: %s :: %s" % (args["_why"], json.dumps(strip(args))[:400]))
-        if op != "jwe.dec":
+        if op not in ("jwe.dec", "jwe.dec_io"):
             return None
         if "_pt" in args and not (real.get("ok") and real.get("pt") == args["_pt"]):
             return ("dec:rejects-valid", "valid token refused or wrong plaintext (%s): %s" % (args["_why"], json.dumps(strip(args))[:300]))
